@@ -33,16 +33,13 @@ structure ConsDef where
   initially : Option String
   deriving DecidableEq, Repr, Inhabited
 
-/-- `from_constraint(to_constraint(c))`: `if constraint.deferrable:` / `if constraint.initially:`
-keep only truthy values (unique and foreign key constraints); `CreateCheckConstraintOp` /
-`CreatePrimaryKeyOp.from_constraint` do not read them at all -/
+/-- `from_constraint(to_constraint(c))`: unique, foreign key and check constraint ops carry
+`deferrable` / `initially` whenever they are not `None`; `CreatePrimaryKeyOp.from_constraint` reads
+only the dialect kwargs -/
 def ConsDef.roundTrip (c : ConsDef) : ConsDef :=
   match c.kind with
-  | .unique | .foreignKey =>
-    { c with
-      deferrable := if c.deferrable == some true then some true else none
-      initially := if c.initially == some "" then none else c.initially }
-  | _ => { c with deferrable := none, initially := none }
+  | .primaryKey => { c with deferrable := none, initially := none }
+  | _ => c
 
 structure IndexDef where
   name : Option String
@@ -103,8 +100,8 @@ inductive Op
   | modifyTable (table : String) (schema : Option String) (ops : List Op)
   deriving Repr, Inhabited
 
-/-- `AlterColumnOp.reverse`: existing_/modify_ swap for every attribute whose `modify_` is set;
-`modify_name` is **not** carried (F11) -/
+/-- `AlterColumnOp.reverse`: existing_/modify_ swap for every attribute whose `modify_` is set; the
+reverse of a rename operates on the new name and renames back -/
 def Alter.reverse (a : Alter) : Alter :=
   let (eT, mT) := match a.modifyType with
     | some m => (some m, a.existingType)
@@ -124,7 +121,8 @@ def Alter.reverse (a : Alter) : Alter :=
     existingNullable := eN, modifyNullable := mN
     existingDefault := eD, modifyDefault := mD
     existingComment := eC, modifyComment := mC
-    modifyName := none }
+    column := match a.modifyName with | some n => n | none => a.column
+    modifyName := match a.modifyName with | some _ => some a.column | none => none }
 
 /-- `DropIndexOp.from_index(index)`: `unique=index.unique` and the index kwargs go into `kw` -/
 def dropIndexOf (ix : IndexDef) : Op :=
